@@ -68,6 +68,10 @@ class Spec:
     def monitors(self, case):
         return []
 
+    def execute(self, case):
+        from .runner import run_case
+        return run_case(case, monitors=self.monitors(case))
+
     def nontrivial(self, case, res):
         return case['cfg']['m'] >= 2 and res.bytes > 0
 
